@@ -15,6 +15,9 @@ type Req struct {
 	A  json.RawMessage `json:"a"`
 }
 
+// set by an operation that leaves goroutines behind which cannot be stopped: the worker answers and ends
+var exitAfterReply bool
+
 var ops = map[string]func(json.RawMessage) (any, error){}
 
 func main() {
@@ -39,6 +42,9 @@ func main() {
 				}
 			}
 			out.Flush()
+			if exitAfterReply {
+				os.Exit(0)
+			}
 		}
 		if err != nil {
 			return
